@@ -1026,13 +1026,33 @@ class Renderer(object):
         dflt = 'None'
         if f.get('default') is not None:
             dflt = '(Some %s)' % self.sval(f['ty'][1], f['default'], scls)
-        ch = 'None'
-        if f.get('choice'):
-            self.groups.setdefault(f['choice'], len(self.groups))
-            ch = '(Some %d)' % self.groups[f['choice']]
-        return '(mkfld %s %s %s %s %s %s %s %s None)' % (
+        return '(mkfld %s %s %s %s %s %s %s None)' % (
             gtext(f['name']), self.ty(f['ty'], scls), gz(f['min']), mx, gbool(f['nillable']),
-            'FAttr' if f['kind'] == 'attr' else 'FElem', ch, dflt)
+            'FAttr' if f['kind'] == 'attr' else 'FElem', dflt)
+
+    def items(self, c, cls):
+        """consecutive members with the same xml_choice_group form one IGroup"""
+        out, cur, run = [], None, []
+
+        def flush():
+            if run:
+                self.groups.setdefault(cur, len(self.groups))
+                out.append('(IGroup %d %s)' % (self.groups[cur], glist(run)))
+                del run[:]
+        for f in c['fields']:
+            t = self.fld(f, cls._type_info[f['name']])
+            g = f.get('choice')
+            if g and f['kind'] == 'elem':
+                if g != cur:
+                    flush()
+                cur = g
+                run.append(t)
+            else:
+                flush()
+                cur = None
+                out.append('(IOne %s)' % t)
+        flush()
+        return glist(out)
 
     def universe(self, svc=None):
         """[klass...]: the classes of desc, then (when a service is given) the in/out message
@@ -1041,9 +1061,8 @@ class Renderer(object):
         rows = []
         for cid, c in enumerate(self.desc['classes']):
             cls = self.classes[cid]
-            flds = [self.fld(f, cls._type_info[f['name']]) for f in c['fields']]
             rows.append('(mkklass %s %s %s %s)' % (gtext(c['ns']), gtext(c['name']),
-                                                   gopt(c['parent'], lambda p: '%d%%nat' % p), glist(flds)))
+                                                   gopt(c['parent'], lambda p: '%d%%nat' % p), self.items(c, cls)))
         if svc is not None:
             for i in range(len(self.classes)):
                 d = svc.public_methods['m%d' % i]
@@ -1051,7 +1070,7 @@ class Renderer(object):
                     (fname, ftype), = msg._type_info.items()
                     A = ftype.Attributes
                     mx = 'PosInf' if A.max_occurs in (D('inf'), float('inf')) else '(Fin %s)' % gz(int(A.max_occurs))
-                    rows.append('(mkklass %s %s None [mkfld %s (DRef %d%%nat) %s %s %s FElem None None None])' % (
+                    rows.append('(mkklass %s %s None [IOne (mkfld %s (DRef %d%%nat) %s %s %s FElem None None)])' % (
                         gtext(msg.get_namespace()), gtext(msg.get_type_name()), gtext(fname), i, gz(int(A.min_occurs)), mx,
                         gbool(bool(A.nillable))))
         return glist(rows)
